@@ -97,7 +97,7 @@ type actorContext struct {
 	children                   map[prc.LogicalAddress]ActorRef // 子 Actor 引用表
 	accidentState              *supervision.AccidentState      // Actor 事故状态
 	status                     atomic.Uint32                   // Actor 状态
-	childGuid                  uint64                          // 子 Actor 自增 GUID 计数
+	childGuid                  atomic.Uint64                   // 子 Actor 自增 GUID 计数（原子递增：FutureAsk 可能被任意 goroutine 并发调用）
 	message                    Message                         // 当前处理的消息
 	sender                     ActorRef                        // 当前消息的发送者
 	supervisorStrategy         supervision.Strategy            // 监管策略
@@ -232,8 +232,7 @@ func (ctx *actorContext) initScheduler() {
 }
 
 func (ctx *actorContext) nextChildGuid() uint64 {
-	ctx.childGuid++
-	return ctx.childGuid
+	return ctx.childGuid.Add(1)
 }
 
 func (ctx *actorContext) CronTask(name, expression string, function func(ctx ActorContext)) error {
